@@ -22,7 +22,8 @@ from harness.gen.c20_ped import scenario_from_case
 
 RULE = ("one `whatshap phase` CLI run over a generated pedigree scenario (1-3 chromosomes, 0-2 trios/quartet plus "
         "unrelated samples, random subset of --output-read-list/--changed-genotype-list/--recombination-list, "
-        "with/without --ped, --distrust-genotypes(+genotype errors), --chromosome/--sample selections, both tags). "
+        "with/without --ped (also with ignorable / reordered PED lines), --distrust-genotypes(+genotype errors), --chromosome/--sample "
+        "selections incl. a selection that matches no chromosome, list paths that already exist, both tags). "
         "Non-trivial: at least two (chromosome, family) instances were processed and at least one requested list has "
         "data rows; distinct = distinct (generator seed, options)")
 MANIFEST = dict(
@@ -30,7 +31,10 @@ MANIFEST = dict(
          "list files (lists_cover_run for the repaired writers, its negation for the code as it is: F1), about the "
          "read-list rows, find_recombination and the change rows of the record writer; tied to the working tree by "
          "real CLI runs whose files are compared with the model fed with the traced instances, plus an independent "
-         "oracle evaluating the four predicates on (input VCF, output VCF, list files, trace)",
+         "oracle evaluating the four predicates on (input VCF, output VCF, list files, trace). Deepened: file-level state "
+         "machine (header once, started flags, old content of the paths, per-chromosome components dict) with "
+         "files_cover_run for arbitrary old content, setup_families/processing order (union-find with minimum "
+         "representative) proved and compared in-process and against the trace order; files compared line by line",
     design_ref="DESIGN.md §5 C20, §6 F1",
     note="trusted: Lean kernel; the hand-written model (differential: quick ~14 CLI runs, thorough ~100); pysam/htslib "
          "parsing; the trace hook. F1 (lists re-opened with 'w' per chromosome/family) is a genuine defect of /repo: "
